@@ -237,7 +237,29 @@ def card(interp, v):
 
 
 def set_term(interp, v):
-    return getattr(v, "zset", None)
+    zs = getattr(v, "zset", None)
+    if zs is not None:
+        return zs
+    if isinstance(v, VSet):
+        # a set given by predicate / comprehension sites: name it by a fresh set constant with its membership as defining axiom
+        # (a snapshot of the set's CURRENT content; not cached, the object may be mutated later)
+        ek = getattr(v, "elem_kind", None)
+        if ek is None and isinstance(v.content, CompBag) and v.content.sites:
+            e0 = v.content.sites[0].elem
+            ek = T.Str if isinstance(e0, VStr) else T.Int if isinstance(e0, VInt) else None
+        if ek is None and isinstance(v.content, ConcreteSeq) and v.content.items:
+            e0 = v.content.items[0]
+            ek = T.Str if isinstance(e0, VStr) else T.Int if isinstance(e0, VInt) else None
+        if ek is None:
+            return None
+        ctx = interp.ctx
+        zs = ctx.fresh("set", z3.SetSort(ek.sort()))
+        x = z3.Const("x!set", ek.sort())
+        mem = interp.contains(v, ek.wrap(x))
+        mem = mem.term if isinstance(mem, VBool) else mem
+        ctx.assume(z3.ForAll([x], z3.IsMember(x, zs) == mem, patterns=[z3.IsMember(x, zs)]))
+        return zs
+    return None
 
 
 def set_eq(interp, a, b):
@@ -361,7 +383,35 @@ def join_sym(interp, sep, it, node):
 
 
 def list_index(interp, lst, x, node):
-    raise Unsupported("list.index on symbolic list")
+    """lst.index(x) on a symbolic list: the FIRST position holding x (ValueError when there is none).  One uninterpreted function per
+    (list, content version) with its defining axiom."""
+    if not (isinstance(lst, VList) and isinstance(lst.content, SymSeq) and isinstance(x, (VStr, VInt))):
+        raise Unsupported("list.index on this kind of list")
+    ctx = interp.ctx
+    if not hasattr(ctx, "memo"):
+        ctx.memo = {}
+    cont = lst.content
+    key = ("firstpos", getattr(lst, "sid", None) or id(lst), id(cont))
+    xs = x.term.sort()
+    if key not in ctx.memo:
+        n_ = sum(1 for k_ in ctx.memo if isinstance(k_, tuple) and k_ and k_[0] == "firstpos")
+        f = z3.Function(f"firstpos[{getattr(lst, 'sid', 'list')}]" + (f"#{n_}" if n_ else ""), xs, z3.IntSort())
+        y = z3.Const("y!fp", xs)
+        k, q = z3.Int("k!fp"), z3.Int("q!fp")
+        inl = z3.Exists([k], z3.And(0 <= k, k < cont.length, cont.at(k).term == y))
+        ctx.assume(z3.ForAll([y], z3.Implies(inl, z3.And(0 <= f(y), f(y) < cont.length, cont.at(f(y)).term == y,
+                                                         z3.ForAll([q], z3.Implies(z3.And(0 <= q, q < f(y)), cont.at(q).term != y)))),
+                             patterns=[f(y)]), "python:list.index(x) is the first position holding x")
+        ctx.assume(z3.ForAll([k], z3.Implies(z3.And(0 <= k, k < cont.length), f(cont.at(k).term) <= k), patterns=[cont.at(k).term]))
+        ctx.memo[key] = f
+    f = ctx.memo[key]
+    if not interp.spec_mode:
+        k = z3.Int("k!fp")
+        inl = z3.Exists([k], z3.And(0 <= k, k < cont.length, cont.at(k).term == x.term))
+        if not ctx.decide(inl, getattr(node, "lineno", "")):
+            from .symex import PyRaise
+            raise PyRaise("ValueError", "x is not in list", getattr(node, "lineno", None))
+    return VInt(f(x.term))
 
 
 # ----------------------------------------------------------------------------- loop rules needing side-car help
@@ -1049,3 +1099,16 @@ def _is_integral(interp, args, kwargs, node):
         return VBool(True)
     t = to_real(v)
     return VBool(t == z3.ToReal(z3.ToInt(t)))
+
+
+@spec("related")
+def _related(interp, args, kwargs, node):
+    """related(neighborhood, x, y): y is among the strings neighborhood(x) yields (for an abstract neighbourhood: membership in
+    its set; for a repository generator: membership in the set its contract returns)"""
+    nb, x, y = args
+    f = getattr(nb, "relfun", None)
+    if f is not None:
+        return VBool(z3.IsMember(y.term, f(x.term)))
+    r = interp.call(nb, [x], {}, node)
+    c = interp.contains(r, y)
+    return c if isinstance(c, VBool) else VBool(c)
